@@ -350,7 +350,14 @@ def execute(sv, workload, policy_spec, sched_seed=0, bound=None, docs=None, coun
     sim = sched.Sim(programs, policy, prefix=env.repo_pkg_dir(), op_kinds=kinds,
                     opcodes=bool(workload.get('opcodes')), max_steps=12_000_000,
                     record_sites=policy_spec.get('record_sites'))
-    sim.run()
+    try:
+        sim.run()
+    except sched.HarnessError as e:
+        if 'did not finish within' in str(e):
+            # the run outlasted its wall-clock allowance (a very deep recursion under the tracer, or a loop that a
+            # changed tree got itself into): it has no outcome; it is counted, and too many of them are a harness error
+            return {'discarded': 'simulation-exceeded-its-wall-clock-allowance'}
+        raise
 
     violation = None
     if sim.deadlock:
@@ -514,6 +521,8 @@ def run_sweep(sv, index, bound, active=None):
             r = runner.isolated(execute, sv, workload, spec, 0, bound, None, False, got[:3], hang_s=60)
         except runner.IsolatedTimeout:
             continue
+        if r.get('discarded'):
+            continue
         digests.append(r['digest'])
         tot_steps += r['steps']
         tot_sw += r['switches']
@@ -645,6 +654,8 @@ def run_msweep(sv, index, bound, core=False):
             r = runner.isolated(execute, sv, workload, spec, 0, bound, None, False, got[:3], hang_s=60)
         except runner.IsolatedTimeout:
             continue
+        if r.get('discarded'):
+            continue
         digests.append(r['digest'])
         tot_steps += r['steps']
         tot_sw += r['switches']
@@ -742,6 +753,8 @@ def run_msweep2(sv, index, bound):
         try:
             r = runner.isolated(execute, sv, workload, spec, 0, bound, None, False, got[:3], hang_s=60)
         except runner.IsolatedTimeout:
+            continue
+        if r.get('discarded'):
             continue
         digests.append(r['digest'])
         tot_steps += r['steps']
